@@ -589,6 +589,20 @@ func Enumerate[C any](t *testing.T, tg Target[C], note string, iterate func(yiel
 	}
 }
 
+// FuzzCase runs one input of a native fuzz target (also the seed corpus that a
+// plain `go test` executes in the quick tier) under panic recovery.  A failure is
+// saved as a replay file, recorded as a violation of this run and returned; the
+// caller fails its *testing.T / *rapid.T with it.
+func FuzzCase[C any](prop, target string, c C, check func(C) (Info, error)) (replay string, err error) {
+	tg := Target[C]{Name: target, Check: check}
+	if _, err = safeCheck(&tg, c); err == nil {
+		return "", nil
+	}
+	replay = SaveFuzzFailure(prop, target, c, err)
+	recordViolation(Violation{Target: target, Replay: replay, Message: firstLine(err.Error()), Key: keyOf(err), Source: "fuzz-corpus"})
+	return replay, err
+}
+
 // Errf is fmt.Errorf (shorter at call sites of oracles).
 func Errf(format string, a ...any) error { return fmt.Errorf(format, a...) }
 
